@@ -5,13 +5,15 @@
 (* PARALLEL variants) against the same expectation.                             *)
 EXTENDS Joins, Gen
 
-CONSTANTS MaxRows, Wide, FewOns
+CONSTANTS MaxRows, Wide, FewOns,
+          Big       \* numeric keys 2^24 and 2^24 + 1 (neighbours that a float32 cannot tell apart) instead of 1 and 2
 
 \* two join columns per side whose names sort differently on the two sides (x.a, x.z / y.m, y.b);
 \* numbers and strings; with Wide a string key containing the separator of the key text
 SVals == IF Wide THEN {StrV(<<112>>), StrV(<<113>>), StrV(<<112, 45>>), StrV(<<45, 113>>)} ELSE {StrV(<<112>>), StrV(<<113>>)}
-LRows == {Row([a |-> NumV(i), z |-> s]) : i \in {1, 2}, s \in SVals}
-RRows == {Row([m |-> NumV(i), b |-> s]) : i \in {1, 2}, s \in SVals}
+NKeys == IF Big THEN {16777216, 16777217} ELSE {1, 2}
+LRows == {Row([a |-> NumV(i), z |-> s]) : i \in NKeys, s \in SVals}
+RRows == {Row([m |-> NumV(i), b |-> s]) : i \in NKeys, s \in SVals}
 Ls == SeqsUpTo(LRows, MaxRows)
 Rs == SeqsUpTo(RRows, MaxRows)
 
